@@ -521,12 +521,12 @@ func (pe *PolicyEngine) deleteNamespace(ns *corev1.Namespace) error {
 
 func (pe *PolicyEngine) deletePod(p *corev1.Pod) error {
 	podName := types.NamespacedName{Namespace: p.Namespace, Name: p.Name}.String()
-	var podToDelete *k8s.Pod
-	if podObj, ok := pe.podsMap[podName]; ok {
-		// delete relevant workload entries from cache if all pods per owner are deleted
-		pe.cache.deletePod(podObj, podName)
-		podToDelete = podObj
+	podToDelete, ok := pe.podsMap[podName]
+	if !ok {
+		return nil // the pod is not in the policy-engine: nothing to delete
 	}
+	// delete relevant workload entries from cache if all pods per owner are deleted
+	pe.cache.deletePod(podToDelete, podName)
 
 	delete(pe.podsMap, podName)
 	pe.updatePodOwnersToRepresentativePodMapIfRequired(podToDelete)
